@@ -38,6 +38,7 @@ func rulesC19(c *Ctx) {
 	ruleIdTieBreak(c, "C19.TIEBREAK", p.SSAFunc(p.Method("objectz", "ObjectStore", "newRowComparator")))
 	ruleRowComparatorFirstNonZero(c, "C19.CMP", p.SSAFunc(p.Method("objectz", "compoundObjectComparator", "compare")))
 	ruleEvalPure(c, "C19.PURE", "ast", "objectz")
+	ruleBoundedResultTree(c, "C19.BOUNDEDPAGE", "objectz")
 	ruleC19Null(c)
 	ruleUseBeforeCheck(c, "C19.USEBEFORECHECK", c.prodFuncs("objectz"))
 	ruleC19IteratorTotal(c)
